@@ -52,7 +52,8 @@ pub struct Defect {
     pub expect_error: bool,
 }
 
-pub const DEFECT_KINDS: [&str; 14] = [
+pub const DEFECT_KINDS: [&str; 15] = [
+    "directive-without-values",
     "bad-register",
     "missing-operand",
     "extra-operand",
@@ -72,7 +73,13 @@ pub const DEFECT_KINDS: [&str; 14] = [
 /// One malformed / unsupported statement line (no newline inside).
 pub fn defect_line(ch: &mut Choices) -> Defect {
     let kind = *ch.pick(&DEFECT_KINDS);
+    let mut expect_error = true;
     let text = match kind {
+        // unusual but accepted: a data directive with an empty value list (e.g. a placeholder)
+        "directive-without-values" => {
+            expect_error = false;
+            ch.pick(&[".word", ".byte", ".half", "count: .word", ".word # todo", ".dword"]).to_string()
+        }
         "bad-register" => ch
             .pick(&[
                 "add a0, a1, q9",
@@ -149,7 +156,6 @@ pub fn defect_line(ch: &mut Choices) -> Defect {
             .to_string(),
         _ => ch.pick(&[".", ". .", "add a0, a0, .", "..."]).to_string(),
     };
-    let expect_error = true;
     Defect {
         kind: kind.to_string(),
         text,
